@@ -10,7 +10,7 @@ cd "$WT" || exit 2
 res() { echo "CONFIRM $M: $*"; }
 run_demo() {
   if [ -f "$M/demo.sh" ]; then
-    timeout 600 sh "$M/demo.sh" "$WT" >/tmp/confirm/$NAME.demo.log 2>&1; return $?
+    timeout 600 bash "$M/demo.sh" "$WT" >/tmp/confirm/$NAME.demo.log 2>&1; return $?
   else
     pkgdir=$(python3 -c "import json,sys; m=json.load(open('$M/meta.json')); d=m.get('demo_dir') or m.get('package') or ''; print(d)" 2>/dev/null)
     if [ -z "$pkgdir" ] || [ ! -d "$WT/$pkgdir" ]; then
